@@ -650,6 +650,26 @@ m("c11-merge-naked-delete-keeps-start-tail-from-cursor", "C11", "nomt/src/merkle
         ("nomt/src/merkle/seek.rs",
          "                if key_path == Some(&overlay_key) {\n                    // The leaf data has been updated in the overlay.\n                    beatree_leaf_idx += 1;\n                }",
          "                final_leaf_data_collection\n                    .extend_from_slice(&collected_leaf_data[start_idx..beatree_leaf_idx]);\n                if key_path == Some(&overlay_key) {\n                    // The leaf data has been updated in the overlay.\n                    beatree_leaf_idx += 1;\n                }\n                start_idx = beatree_leaf_idx;")])
+# ---- C12 guardfx: a value whose Drop impl performs an effect is an effect where it is dropped ----
+m("c12-root-restore-guard-before-check", "C12", "nomt/src/lib.rs",
+  "        let _write_guard = self.take_global_guard.then(|| nomt.access_lock.write());\n\n        {\n            let mut shared = nomt.shared.lock();\n            if shared.root != self.prev_root {\n                anyhow::bail!(\n                    \"Changeset no longer valid (expected previous root {:?}, got {:?})\",\n                    self.prev_root,\n                    shared.root\n                );\n            }\n            shared.root = Root(self.merkle_output.root);\n            shared.last_commit_marker = None;\n        }\n\n        if let Some(rollback_delta) = self.rollback_delta {\n            // UNWRAP: if rollback_delta is `Some`, then rollback must be also `Some`.\n            let rollback = nomt.store.rollback().unwrap();\n            if let Err(e) = rollback.commit(rollback_delta) {",
+  "        let _write_guard = self.take_global_guard.then(|| nomt.access_lock.write());\n        let mut root_restore = RootRestore { shared: &nomt.shared, base: self.prev_root, armed: true };\n\n        {\n            let mut shared = nomt.shared.lock();\n            if shared.root != self.prev_root {\n                anyhow::bail!(\n                    \"Changeset no longer valid (expected previous root {:?}, got {:?})\",\n                    self.prev_root,\n                    shared.root\n                );\n            }\n            shared.root = Root(self.merkle_output.root);\n            shared.last_commit_marker = None;\n        }\n        root_restore.armed = false;\n\n        if let Some(rollback_delta) = self.rollback_delta {\n            // UNWRAP: if rollback_delta is `Some`, then rollback must be also `Some`.\n            let rollback = nomt.store.rollback().unwrap();\n            if let Err(e) = rollback.commit(rollback_delta) {",
+  "C12|guardfx|FinishedSession::commit|guard=root_eq|no-refusal-edge",
+  also=[("nomt/src/lib.rs", "/// Whether a key was read, written, or both, along with old and new values.", "struct RootRestore<'a> {\n    shared: &'a Mutex<Shared>,\n    base: Root,\n    armed: bool,\n}\n\nimpl<'a> Drop for RootRestore<'a> {\n    fn drop(&mut self) {\n        if self.armed {\n            self.shared.lock().root = self.base;\n        }\n    }\n}\n\n/// Whether a key was read, written, or both, along with old and new values.")])
+m("benign-root-restore-guard-after-check", "C12", "nomt/src/lib.rs",
+  "            shared.root = Root(self.merkle_output.root);\n            shared.last_commit_marker = None;\n        }\n\n        if let Some(rollback_delta) = self.rollback_delta {\n            // UNWRAP: if rollback_delta is `Some`, then rollback must be also `Some`.\n            let rollback = nomt.store.rollback().unwrap();\n            if let Err(e) = rollback.commit(rollback_delta) {",
+  "            shared.root = Root(self.merkle_output.root);\n            shared.last_commit_marker = None;\n        }\n        let mut root_restore = RootRestore { shared: &nomt.shared, base: self.prev_root, armed: true };\n        root_restore.armed = false;\n\n        if let Some(rollback_delta) = self.rollback_delta {\n            // UNWRAP: if rollback_delta is `Some`, then rollback must be also `Some`.\n            let rollback = nomt.store.rollback().unwrap();\n            if let Err(e) = rollback.commit(rollback_delta) {",
+  None,
+  also=[("nomt/src/lib.rs", "/// Whether a key was read, written, or both, along with old and new values.", "struct RootRestore<'a> {\n    shared: &'a Mutex<Shared>,\n    base: Root,\n    armed: bool,\n}\n\nimpl<'a> Drop for RootRestore<'a> {\n    fn drop(&mut self) {\n        if self.armed {\n            self.shared.lock().root = self.base;\n        }\n    }\n}\n\n/// Whether a key was read, written, or both, along with old and new values.")])
+# ---- C14 R2: a completion result kept in a variable must not be overwritten before it is looked at ----
+m("c14-update-last-result-wins", "C14", "nomt/src/beatree/ops/update/mod.rs",
+  "    for _ in 0..total_io {\n        // UNWRAP: we receive only what we sent. No `RecvErr` expected.\n        io_handle.recv().unwrap().result?;\n    }",
+  "    let mut io_result = Ok(());\n    for _ in 0..total_io {\n        io_result = io_handle.recv().unwrap().result;\n    }\n    io_result?;",
+  "C14|R2|beatree::ops::update::update|completion=tmp")
+m("benign-update-first-error-kept", "C14", "nomt/src/beatree/ops/update/mod.rs",
+  "    for _ in 0..total_io {\n        // UNWRAP: we receive only what we sent. No `RecvErr` expected.\n        io_handle.recv().unwrap().result?;\n    }",
+  "    let mut io_result = Ok(());\n    for _ in 0..total_io {\n        let r = io_handle.recv().unwrap().result;\n        if io_result.is_ok() {\n            io_result = r;\n        }\n    }\n    io_result?;",
+  None)
 # ---- C04 O17: a WAL blob is only written into an empty WAL file (either half of seed C04-j alone is harmless) ----
 m("benign-wal-no-post-meta-truncate", "C04", "nomt/src/bitbox/mod.rs",
   "        writeout::truncate_wal(&self.db.shared.wal_fd, false)?;\n        Ok(())",
